@@ -486,6 +486,106 @@ def _marked_stack(cfg):
 
 
 
+@_guard
+def rt_history(cfg):
+    """No hidden state across calls: after any sequence of reconstructions (other kernels, sub-masks, upsampling, ONE-OFF overrides of the
+    aberrations / rotation) a plain reconstruct() equals the first one and equals that of a freshly built object; the stored hyper-parameters
+    and the caller's override dictionary are unchanged."""
+    import copy
+
+    dp, stack, mask = _build(cfg)
+    st = dp.hyperparameter_state
+    if cfg.get("optimized"):
+        st.optimized_aberrations.update(cfg["optimized"])
+    before = copy.deepcopy((st.initial_aberrations, st.optimized_aberrations, st.initial_rotation_angle, st.optimized_rotation_angle, sorted(st.optimized_keys)))
+    first = _recon(dp, cfg, cfg.get("sub"), cfg.get("batch"))
+    problems = []
+    for step in cfg["steps"]:
+        kw = dict(step)
+        ovr = kw.get("override_aberration_coefs")
+        ovr_copy = copy.deepcopy(ovr)
+        dp.reconstruct(bf_mask=_submask(dp, kw.pop("sub", None)), verbose=False, **kw)
+        if ovr != ovr_copy:
+            problems.append(f"the caller's override dictionary was changed: {ovr_copy} -> {ovr}")
+    later = _recon(dp, cfg, cfg.get("sub"), cfg.get("batch"))
+    after = (st.initial_aberrations, st.optimized_aberrations, st.initial_rotation_angle, st.optimized_rotation_angle, sorted(st.optimized_keys))
+    if after != before:
+        problems.append(f"stored hyper-parameters changed: {before} -> {after}")
+    d, sc = _dev(later, first)
+    if d != 0.0:
+        problems.append(f"the same call after {len(cfg['steps'])} other reconstructions differs from the first by {d:.3g} (scale {sc:.3g})")
+    fresh = _build(cfg)[0]
+    if cfg.get("optimized"):
+        fresh.hyperparameter_state.optimized_aberrations.update(cfg["optimized"])
+    d, sc = _dev(_recon(fresh, cfg, cfg.get("sub"), cfg.get("batch")), later)
+    if d != 0.0:
+        problems.append(f"differs from a freshly constructed object by {d:.3g} (scale {sc:.3g})")
+    return dict(violated=bool(problems), observed="; ".join(problems[:3]) or "ok",
+                expected="later plain call == first call == fresh object (bitwise); stored hyper-parameters and override dictionaries unchanged")
+
+
+def fam_history(tier="quick", seed=0):
+    k = 0
+    seqs = [
+        [dict(override_aberration_coefs={"C10": 600.0})],
+        [dict(override_aberration_coefs={"defocus": 300.0, "C12": 50.0}, override_rotation_angle=0.4)],
+        [dict(override_rotation_angle=-0.7), dict(deconvolution_kernel="obf", upsampling_factor=2)],
+        [dict(deconvolution_kernel="mf", max_batch_size=2), dict(sub=[0, 2], deconvolution_kernel="parallax", override_aberration_coefs={"C30": 1.0e5}), dict(use_initial_state=True)],
+        [dict(q_lowpass=0.7, q_highpass=0.1), dict(override_aberration_coefs={"C10": -250.0}, deconvolution_kernel="icom")],
+    ]
+    for gi, g in enumerate(_GEOMS[:3] if tier == "quick" else _GEOMS):
+        for kernel in ("ssb", "prlx", "obf") if tier == "quick" else ("ssb", "obf", "mf", "prlx", "icom"):
+            for si, steps in enumerate(seqs):
+                for optimized in ({}, {"C12": 35.0, "phi12": 0.2}):
+                    k += 1
+                    if tier == "quick" and (k + si) % 2:
+                        continue
+                    yield dict(g, kernel=kernel, u=1 + k % 2, sub=None, abers=_ABERS[1 + k % 3], rot=[0.0, 0.3][k % 2], seed=seed + k, batch=[None, 2][k % 2],
+                               steps=steps, optimized=optimized, opts=dict(flip=bool(k % 2)))
+
+
+def rt_getter(inp):
+    """HyperparameterState.current_aberrations / current_rotation_angle on the real class: fresh mapping, specified contents, state untouched."""
+    import copy
+
+    M = _rt_env()
+    st = M.HyperparameterState(initial_aberrations=dict(inp["initial"]), initial_rotation_angle=inp.get("rot0"))
+    st.optimized_aberrations.update(inp.get("optimized", {}))
+    st.optimized_rotation_angle = inp.get("rot1")
+    before = copy.deepcopy((st.initial_aberrations, st.optimized_aberrations, st.initial_rotation_angle, st.optimized_rotation_angle))
+    ovr = None if inp.get("override") is None else dict(inp["override"])
+    ovr0 = copy.deepcopy(ovr)
+    problems = []
+    for rep in range(2):
+        out = st.current_aberrations(ovr)
+        want = {**before[0], **before[1], **(ovr0 or {})}
+        if out != want:
+            problems.append(f"call {rep + 1}: {out} != {want}")
+        if out is st.initial_aberrations or out is st.optimized_aberrations or (ovr is not None and out is ovr):
+            problems.append("the returned mapping is one of the stored / passed dictionaries")
+        out["C56"] = 1.0  # a caller may edit what it got
+        rot = st.current_rotation_angle(inp.get("rot_override"))
+        wr = next((v for v in (inp.get("rot_override"), before[3], before[2]) if v is not None), 0.0)
+        if rot != wr:
+            problems.append(f"rotation {rot} != {wr}")
+    after = (st.initial_aberrations, st.optimized_aberrations, st.initial_rotation_angle, st.optimized_rotation_angle)
+    if after != before:
+        problems.append(f"stored state changed: {before} -> {after}")
+    if ovr != ovr0:
+        problems.append(f"override dictionary changed: {ovr0} -> {ovr}")
+    if st.current_aberrations() != {**before[0], **before[1]}:
+        problems.append(f"a later plain call returns {st.current_aberrations()}")
+    return dict(violated=bool(problems), observed="; ".join(problems[:3]) or "ok", expected="fresh mapping = initial + optimized + override; state unchanged")
+
+
+def fam_getter():
+    for initial in ({}, {"C10": 100.0, "C12": 20.0, "phi12": 0.1}):
+        for optimized in ({}, {"C10": 120.0, "C21": 300.0}):
+            for override in (None, {}, {"C10": 600.0}, {"C30": 1.0e4, "C12": 5.0}):
+                for rots in ((None, None, None), (0.1, None, None), (0.1, 0.2, None), (None, 0.2, 0.3), (0.1, None, 0.3)):
+                    yield dict(initial=initial, optimized=optimized, override=override, rot0=rots[0], rot1=rots[1], rot_override=rots[2])
+
+
 def _signed(idx, n):
     """Signed frequency index of corner-centred position idx on an axis of length n (np.fft.fftfreq convention)."""
     return idx if idx < (n + 1) // 2 else idx - n
@@ -1409,7 +1509,7 @@ LEMMAS = [
 # ------------------------------------------------------------------------------------------------
 # run-time oracle attached to the contracts (replay of failed obligations on the real code; first failing input is cached)
 # ------------------------------------------------------------------------------------------------
-_CHECKS = {"crop": (rt_crop, fam_crop), "batch": (rt_batch, fam_batch), "linear": (rt_linear, fam_linear), "recombine": (rt_recombine, fam_recombine),
+_CHECKS = {"history": (rt_history, fam_history), "crop": (rt_crop, fam_crop), "batch": (rt_batch, fam_batch), "linear": (rt_linear, fam_linear), "recombine": (rt_recombine, fam_recombine),
            "parallax": (rt_parallax, fam_parallax), "context": (rt_bf_context, fam_bf_context), "aliases": (rt_aliases, fam_aliases)}
 _REPLAY_CACHE = {}
 
@@ -1441,10 +1541,12 @@ def fam_any_cached(names):
     return fam
 
 
-for _c, _names in ((C_RECONSTRUCT, ["batch", "recombine", "parallax", "linear"]), (C_KERNEL, ["batch", "parallax", "linear", "recombine"]),
+for _c, _names in ((C_RECONSTRUCT, ["batch", "recombine", "parallax", "linear", "history"]), (C_KERNEL, ["batch", "parallax", "linear", "recombine"]),
                    (C_GAMMA, ["batch", "linear"]), (C_BFCONTEXT, ["context", "parallax"]), (C_PREPROCESS, ["parallax", "linear"])):
     _c.rt, _c.rt_family = rt_any, fam_any_cached(_names)
 C_KERNELNAME.rt, C_KERNELNAME.rt_family = rt_kernel_name, fam_kernel_name
+for _c in (C_CURAB, C_CURROT):
+    _c.rt, _c.rt_family, _c.concretize = rt_getter, fam_getter, (lambda ev: None)
 C_KERNELNAME.concretize = lambda ev: None
 
 TRUSTED = [
@@ -1484,6 +1586,9 @@ BOUNDED = [
     Bounded.from_rt("analytic parallax: zero aberration and defocus/astigmatism shifts", rt_parallax, fam_parallax,
                     "same geometries, 6 aberration sets incl. integer-pixel shifts, rotation 0/0.35/-0.9, upsampling 1..3, full mask and proper sub-masks"),
     Bounded.from_rt("aliases give identical reconstructions", rt_aliases, fam_aliases, "2 geometries (all 5 in thorough)"),
+    Bounded.from_rt("call histories: one-off overrides / other kernels / sub-masks leave no trace", rt_history, fam_history,
+                    "3 geometries (5 in thorough) x 3 kernels (5) x 5 call sequences x optimised aberrations empty / present; later call == first == fresh object, bitwise"),
+    Bounded.from_rt("HyperparameterState getters are pure", rt_getter, fam_getter, "initial/optimized empty or not x 4 overrides x 5 rotation settings, two calls each"),
     Bounded.from_rt("construction mask cropping (crop_bf_mask=True) keeps pixels at their detector frequencies", rt_crop, fam_crop,
                     "detectors 8x8, 7x7, 6x9; 7 mask extents (symmetric, heavier to either side, touching the array edge); padding 0..2", klass=crop_class),
 ]
